@@ -19,6 +19,8 @@ type Ctx struct {
 	R    *core.Report
 	Tier string
 	Prop string
+
+	lockCache *lockInfo
 }
 
 // PropSpec describes how a property is decided.
